@@ -34,6 +34,14 @@ func TestRsocksReal(t *testing.T) {
 		op := "note rsocks " + f[0]
 		s.Op(op, "ok", true)
 		s.Count("result:" + f[3])
+		if f[3] == "blocked" {
+			for _, p := range []string{"C19", "C08"} {
+				s.Find(Finding{Property: p, Signature: "rsocks-close-does-not-wake-read", Stream: "rsocksreal",
+					What:     "closing a receive socket does not end a Read that is blocked on it (real lib/rsocks): an ARP probe on a quiet segment never times out and the run loops do not return when their context is cancelled",
+					Ops:      []string{op, "Read in a goroutine, Close after 150 ms, wait 2 s; run " + bin}, Expected: "the blocked Read returns an error", Observed: "still blocked 2 s after Close"})
+			}
+			continue
+		}
 		if f[1] != f[2] || f[3] == "panic" {
 			what := "a socket that was opened has not been closed once activity ceased (real lib/rsocks constructor: descriptors held by the process grew)"
 			if f[3] == "panic" {
